@@ -987,3 +987,7 @@ v("d76-if-else-none-into-typed-array", "C05", PB,
   "            res[bad_posns] = None\n")
 v("d77-concat-spells-missing", "C05", PB,
   "        bad_posns = numpy.logical_or(self.pd.isnull(a), self.pd.isnull(b))\n        if (numpy.ndim(res) > 0) and numpy.any(bad_posns):\n            res = res.astype(object)\n            res[numpy.broadcast_to(bad_posns, res.shape)] = None\n", "")
+
+v("d78-polars-coalesce-exempts-right-keys", "C16", PM,
+  "            ) - set([ka for ka, kb in zip(op.on_a, op.on_b) if ka == kb])\n            orphan_keys = [c for c in op.on_a if c not in set(op.on_b)]",
+  "            ) - set(op.on_b)\n            orphan_keys = [c for c in op.on_a if c not in set(op.on_b)]")
